@@ -99,7 +99,11 @@ class C05(Prop):
             "peer-side changes behind the client's back. Oracle: an abstract map with expiry and cas versions stepped "
             "in lock-step (return value == contract; server store == model store after every call). distinct = "
             "distinct sequences of (method, noreply class, outcome); non-trivial = at least one hit, one miss and one "
-            "state-changing call.")
+            "state-changing call. The first work units are a bounded-exhaustive enumeration ordered by depth: every "
+            "sequence up to depth 3 (quick) / 4 (thorough) over 18 operation symbols on one key (set numeric / text, "
+            "add, replace, append, prepend, cas with the last real token / a stale token, get, gets, gat, touch, "
+            "delete, incr, decr, flush_all, two clock advances) x default_noreply on/off (12,348 resp. 222,300 "
+            "histories), each closed by a gets; the remaining units are the seeded random histories.")
     state_measure = "distinct abstract model states (per key: absent | present/numeric | present/other, with-expiry flag) x pending-flush flag"
     assumptions = ["fault-free network (the fault-injecting twin of this oracle is C01's result-vs-server-state check)",
                    "expiry and flush boundaries closer than 1.5 s to a read are not judged (memcached's 1-second clock "
@@ -107,10 +111,75 @@ class C05(Prop):
 
     def plan(self, tier):
         if tier == "quick":
-            return {"units": 100000, "budget_s": 90, "block": 500}
+            return {"units": 60000, "budget_s": 90, "block": 300}
         return {"units": 3000000, "budget_s": 1500, "block": 1000}
 
+    # ---- bounded-exhaustive part: every operation sequence up to a depth on one key
+    ALPHABET = ["set5", "setx", "add", "replace", "append", "prepend", "cas_tok", "cas_bad", "get", "gets", "gat10",
+                "touch10", "delete", "incr", "decr", "flush", "adv4", "adv40"]
+
+    def enum_count(self, depth):
+        return sum(len(self.ALPHABET) ** d for d in range(1, depth + 1)) * 2
+
+    def gen_enum(self, rng, idx):
+        dn = bool(idx % 2)
+        k = idx // 2
+        n = len(self.ALPHABET)
+        d = 1
+        while k >= n ** d:
+            k -= n ** d
+            d += 1
+        seq = []
+        for _ in range(d):
+            seq.append(self.ALPHABET[k % n])
+            k //= n
+        nodes, servers = gen.node_specs(1)
+        w = {"stack": "client", "servers": servers, "nodes": nodes, "client_kwargs": {"default_noreply": dn},
+             "knobs": {"recv_size": 4096}}
+        key = E(b"k")
+        steps = []
+        last_gets = None
+        for sym in seq:
+            nr = rng.choice([None, None, True, False])
+            kw = {} if nr is None else {"noreply": nr}
+            if sym == "set5":
+                st = {"m": "set", "a": [key, E(b"5")], "k": dict(kw, expire=rng.choice([0, 10]))}
+            elif sym == "setx":
+                st = {"m": "set", "a": [key, E(b"text")], "k": kw}
+            elif sym in ("add", "replace", "append", "prepend"):
+                st = {"m": sym, "a": [key, E(b"1")], "k": kw}
+            elif sym == "cas_tok":
+                tok = {"$tok": [last_gets, None]} if last_gets is not None else E(b"1")
+                st = {"m": "cas", "a": [key, E(b"9"), tok], "k": kw}
+            elif sym == "cas_bad":
+                st = {"m": "cas", "a": [key, E(b"9"), E(b"1")], "k": kw}
+            elif sym == "get":
+                st = {"m": "get", "a": [key], "k": {}}
+            elif sym == "gets":
+                last_gets = len(steps)
+                st = {"m": "gets", "a": [key], "k": {}}
+            elif sym == "gat10":
+                st = {"m": "gat", "a": [key], "k": {"expire": 10}}
+            elif sym == "touch10":
+                st = {"m": "touch", "a": [key], "k": dict(kw, expire=10)}
+            elif sym == "delete":
+                st = {"m": "delete", "a": [key], "k": kw}
+            elif sym in ("incr", "decr"):
+                st = {"m": sym, "a": [key, rng.choice([1, 7])], "k": kw}
+            elif sym == "flush":
+                st = {"m": "flush_all", "a": [], "k": dict(kw, delay=rng.choice([0, 0, 10]))}
+            else:
+                steps.append({"t": "advance", "dt": 4 if sym == "adv4" else 40})
+                continue
+            st["t"] = "call"
+            steps.append(st)
+        steps.append({"t": "call", "m": "gets", "a": [key], "k": {}})
+        return [{"property": self.id, "world": w, "steps": steps, "enum": {"depth": d, "index": idx}}]
+
     def gen(self, rng, idx, tier):
+        depth = 3 if tier == "quick" else 4
+        if idx < self.enum_count(depth):
+            return self.gen_enum(rng, idx)
         stack = rng.choice(["client"] * 5 + ["pooled", "hash", "retrying"])
         item_max = rng.choice([None, None, None, 64])
         nodes, servers = gen.node_specs(1, unix=rng.random() < 0.1, item_max=item_max)
@@ -298,10 +367,13 @@ class C05(Prop):
     def probe_names(self):
         return ("cas-with-real-token-stored", "cas-exists", "cas-not-found", "expired-item-missed",
                 "delayed-flush-elapsed", "incr-wrapped-64bit", "decr-padded-value-read", "too-large-rejected",
-                "noreply-effect-checked", "set_many-partial-failure", "peer-side-change")
+                "noreply-effect-checked", "set_many-partial-failure", "peer-side-change",
+                "bounded-exhaustive-sequence")
 
     def probes(self, scn, res):
         p = {}
+        if "enum" in scn:
+            p["bounded-exhaustive-sequence"] = 1
         for c in res.calls:
             if c.step < 0:
                 continue
